@@ -108,6 +108,15 @@ func (p *Probes) raise(id int) {
 	case 2:
 		var m map[string]int
 		m["INJ"] = id // runtime error: assignment to entry in nil map
+	case 3:
+		// an error value that wraps a runtime error (what a function reports after recovering its own bug)
+		var cause error
+		func() {
+			defer func() { cause, _ = recover().(error) }()
+			var xs []int
+			_ = xs[id]
+		}()
+		panic(fmt.Errorf("INJ-%d-%s: simulated function failure: %w", id, p.Tag, cause))
 	}
 	panic(fmt.Errorf("INJ-%d-%s: simulated function failure", id, p.Tag))
 }
@@ -128,6 +137,21 @@ func (r *probeRanger) Range() (reflect.Value, reflect.Value, bool) {
 	return reflect.ValueOf(r.i - 1), reflect.ValueOf(r.items[r.i-1]), false
 }
 func (r *probeRanger) ProvidesIndex() bool { return true }
+
+// indexlessRanger is a custom Ranger that provides no index.
+type indexlessRanger struct {
+	items []string
+	i     int
+}
+
+func (r *indexlessRanger) Range() (reflect.Value, reflect.Value, bool) {
+	if r.i >= len(r.items) {
+		return reflect.Value{}, reflect.Value{}, true
+	}
+	r.i++
+	return reflect.Value{}, reflect.ValueOf(r.items[r.i-1]), false
+}
+func (r *indexlessRanger) ProvidesIndex() bool { return false }
 
 // probeRenderer renders itself (bypassing the printer) and is a fault point.
 type probeRenderer struct{ p *Probes }
@@ -251,6 +275,7 @@ func Vars(d gen.DataSpec, p *Probes) jet.VarMap {
 	vm.SetFunc("mark", p.fn(false))
 	vm.Set("vfn", func(xs ...int) int { return len(xs) })
 	vm.Set("rng", &probeRanger{p: p, items: []string{"ra", "rb"}})
+	vm.Set("plain", &indexlessRanger{items: []string{"pa", "pb"}})
 	vm.Set("rnd", probeRenderer{p})
 	return vm
 }
